@@ -149,7 +149,7 @@ fn main() {
                 };
                 scen::graph_scenario(i, &mut srng, &o, family)
             }
-            "doc" | "doctext" | "docinv" | "histdoc" | "reload" | "rollback" | "iso" | "diff" | "patch" | "ids" | "idshi" | "migrate" | "badargs" | "isorich" | "serde" | "bulk" | "spans" | "anon" | "reloadlong" | "histlong" => {
+            "doc" | "doctext" | "docinv" | "histdoc" | "reload" | "rollback" | "iso" | "diff" | "patch" | "ids" | "idshi" | "migrate" | "badargs" | "isorich" | "serde" | "bulk" | "spans" | "anon" | "reloadlong" | "histlong" | "difflong" => {
                 if family == "isorich" {
                     amverif::proj::set_rich(true);
                 }
@@ -202,7 +202,7 @@ fn main() {
                     automerge::TextEncoding::UnicodeCodePoint
                 };
                 let o = scen::GraphOpts {
-                    weights: if family == "reload" || family == "ids" || family == "reloadlong" { scen::W_RELOAD } else if family == "histlong" { scen::W_CONFLICT } else if family == "iso" || family == "isorich" || family == "idshi" { scen::W_ISO } else if family == "migrate" { scen::W_CONFLICT } else { scen::W_DOC },
+                    weights: if family == "reload" || family == "ids" || family == "reloadlong" { scen::W_RELOAD } else if family == "histlong" || family == "difflong" { scen::W_CONFLICT } else if family == "iso" || family == "isorich" || family == "idshi" { scen::W_ISO } else if family == "migrate" { scen::W_CONFLICT } else { scen::W_DOC },
                     twin_start: false,
                     base_calls: if family == "reloadlong" {
                         // 40 distinct strings of 8 characters: the value column of the saved document exceeds the
@@ -220,11 +220,11 @@ fn main() {
                     readat: if family == "histlong" { 30 } else if family == "histdoc" { 10 } else if family == "reload" { 6 } else { 0 },
                     reload_before_readat: family == "reload",
                     rollback_pct: if family == "rollback" { 45 } else { 0 },
-                    diffs: if family == "diff" { 6 } else { 0 },
+                    diffs: if family == "diff" { 6 } else if family == "difflong" { 10 } else { 0 },
                     log_patches: family == "patch",
-                    steps: if family == "reloadlong" || family == "histlong" { 45 + srng.below(25) } else { 8 + srng.below(10) },
+                    steps: if family == "reloadlong" || family == "histlong" || family == "difflong" { 45 + srng.below(25) } else { 8 + srng.below(10) },
                     max_reps: 3,
-                    max_changes: if family == "reloadlong" || family == "histlong" { 40 } else { 10 },
+                    max_changes: if family == "reloadlong" || family == "histlong" || family == "difflong" { 40 } else { 10 },
                     dup_actors: false,
                     obs: ObsLevel::View,
                     prof,
